@@ -134,6 +134,11 @@ def run(tier):
     cb = vlib.go_run(cbin, "TestBackends", wd, env={"VERIF_HISTORIES": 10 if tier == "quick" else 120}, timeout=1800)
     verdict.add_all(cb["mismatches"])
     log("  chain store over the four backends: %d histories, %d backend comparisons, %d mismatches, %.1fs" % (cb["traces"], cb["evaluations"], len(cb["mismatches"]), cb["wall"]))
+    # a session far larger than any enumerated sequence (70 000 unflushed writes in one bucket), ended
+    # by Cancel / by Flush, on the four backends
+    bk = vlib.go_run(binary, "TestBulk", wd, timeout=900, tag="bulk")
+    verdict.add_all(bk["mismatches"])
+    log("  bulk sessions (70 000 unflushed writes, cancel / flush) on 4 backends: %d findings, %.1fs" % (len(bk["mismatches"]), bk["wall"]))
     # ... also in what survives a stop of the process: crash/reopen histories of the chain store on
     # MemDB, CacheDB(MemDB) and a Bolt file (harness/chainx TestDriver, durable mode); counted for C17:
     # a backend-owned value changed in place / an uncommitted write visible after the stop / a fault
